@@ -19,12 +19,11 @@ func parseLoadFile94(reader io.Reader, coresize Address) (WarriorData, error) {
 
 	lineNum := 0
 	breader := bufio.NewReader(reader)
-	for {
-		// empty lines and last lines without newlines seem to be missed
-		// should something else be used? or are these not worth handling?
+	for atEOF := false; !atEOF; {
+		// a last line without a newline is returned together with the error
 		raw_line, err := breader.ReadString('\n')
 		if err != nil {
-			break
+			atEOF = true
 		}
 		lineNum++
 
@@ -41,7 +40,9 @@ func parseLoadFile94(reader io.Reader, coresize Address) (WarriorData, error) {
 			} else if strings.HasPrefix(lower, ";author") {
 				data.Author = strings.TrimSpace(raw_line[7:])
 			} else if strings.HasPrefix(lower, ";strategy") {
-				data.Strategy += raw_line[10:]
+				if len(raw_line) > 10 {
+					data.Strategy += raw_line[10:]
+				}
 			}
 			continue
 		}
@@ -275,12 +276,11 @@ func parseLoadFile88(reader io.Reader, coresize Address) (WarriorData, error) {
 
 	lineNum := 0
 	breader := bufio.NewReader(reader)
-	for {
-		// empty lines and last lines without newlines seem to be missed
-		// should something else be used? or are these not worth handling?
+	for atEOF := false; !atEOF; {
+		// a last line without a newline is returned together with the error
 		raw_line, err := breader.ReadString('\n')
 		if err != nil {
-			break
+			atEOF = true
 		}
 		lineNum++
 
@@ -297,7 +297,9 @@ func parseLoadFile88(reader io.Reader, coresize Address) (WarriorData, error) {
 			} else if strings.HasPrefix(lower, ";author") {
 				data.Author = strings.TrimSpace(raw_line[7:])
 			} else if strings.HasPrefix(lower, ";strategy") {
-				data.Strategy += raw_line[10:]
+				if len(raw_line) > 10 {
+					data.Strategy += raw_line[10:]
+				}
 			}
 			continue
 		}
